@@ -187,3 +187,44 @@ def vKind (c : Str) : Option ColK :=
   else none
 
 end OQ.Spec
+
+namespace OQ.Spec
+/-! ### comparisons of a condition with a Boolean literal
+
+  `(c) eq true`, `true eq (c)`, `(c) ne false` mean `c`; `(c) eq false`, `(c) ne true` mean `not c` — under three-valued logic exactly (an unknown `c`
+  stays unknown on both sides).  The elaborator of the relational grammar works on the forms without the wrapper; the JUDGE (driver `releval`) first
+  removes the wrappers with `unwrapBoolCmp`.  (Only the judge: the plan models see the filter as written.) -/
+def isCondShape : Expr → Bool
+  | .compare _ _ _ | .boolop _ _ _ | .unary .not_ _ | .coll _ _ _ => true
+  | .call ⟨n, []⟩ _ => n == "contains".toList || n == "startswith".toList || n == "endswith".toList
+  | _ => false
+
+def boolLitVal : Expr → Option Bool
+  | .lit .bool v =>
+      let lc := v.map (fun c => if 'A' ≤ c ∧ c ≤ 'Z' then Char.ofNat (c.toNat + 32) else c)
+      if lc == "true".toList then some true else if lc == "false".toList then some false else none
+  | _ => none
+
+mutual
+def unwrapBoolCmp : Expr → Expr
+  | .compare op l r =>
+      let l' := unwrapBoolCmp l
+      let r' := unwrapBoolCmp r
+      match op, isCondShape l', boolLitVal r', boolLitVal l', isCondShape r' with
+      | .eq, true, some b, _, _ => if b then l' else .unary .not_ l'
+      | .ne, true, some b, _, _ => if b then .unary .not_ l' else l'
+      | .eq, _, _, some b, true => if b then r' else .unary .not_ r'
+      | .ne, _, _, some b, true => if b then .unary .not_ r' else r'
+      | _, _, _, _, _ => .compare op l' r'
+  | .boolop o l r => .boolop o (unwrapBoolCmp l) (unwrapBoolCmp r)
+  | .unary o e => .unary o (unwrapBoolCmp e)
+  | .coll ow o lam => .coll ow o (unwrapLam lam)
+  | e => e
+def unwrapLam : OptLam → OptLam
+  | .none => .none
+  | .some v b => .some v (unwrapBoolCmp b)
+end
+
+example : unwrapBoolCmp (.compare .eq (.compare .eq (.ident ⟨"a".toList, []⟩) (.lit .null [])) (.lit .bool "TRUE".toList))
+    = .compare .eq (.ident ⟨"a".toList, []⟩) (.lit .null []) := by decide
+end OQ.Spec
